@@ -8,7 +8,12 @@ if sh("git -C /repo status --porcelain -- src Cargo.toml build.rs").stdout.strip
     print("refusing: /repo has local changes"); sys.exit(2)
 pids = [c["property_id"] for c in json.load(open(os.path.join(HERE, "MANIFEST.json")))["checks"]]
 only = sys.argv[1:]
-out = {}
+# BENIGN_CHECKS=C17,C05 restricts the replay to the checks whose rules changed; results are merged into RESULTS.json
+sub = [c for c in os.environ.get("BENIGN_CHECKS", "").split(",") if c]
+if sub:
+    pids = [p for p in pids if p in sub]
+RES = os.path.join(HERE, "seeded", "benign", "RESULTS.json")
+out = json.load(open(RES)) if (sub or only) and os.path.exists(RES) else {}
 for p in sorted(glob.glob(os.path.join(HERE, "seeded", "benign", "*.diff"))):
     name = os.path.basename(p)[:-5]
     if only and not any(name.startswith(o) for o in only): continue
@@ -23,8 +28,14 @@ for p in sorted(glob.glob(os.path.join(HERE, "seeded", "benign", "*.diff"))):
                 bad[pid] = [l[:260] for l in rr.stdout.splitlines() if l.startswith("  ") or l.startswith("BROKEN") or l.startswith("VIOLATION")][:6]
     finally:
         sh("git -C /repo checkout -- .")
+    if sub:
+        prev = dict(out.get(name, {}).get("alarms", {}))
+        for pid in pids:
+            prev.pop(pid, None)
+        prev.update(bad)
+        bad = prev
     out[name] = {"alarms": bad}
     print(name, "clean" if not bad else "ALARM " + json.dumps(bad)[:400])
     sys.stdout.flush()
-json.dump(out, open(os.path.join(HERE, "seeded", "benign", "RESULTS.json"), "w"), indent=1)
+json.dump(out, open(RES, "w"), indent=1)
 for pid in pids: sh("./check %s --tier quick" % pid, cwd=HERE)
